@@ -11,6 +11,10 @@ use std::rc::Rc;
 /// not as a library panic).
 pub struct BudgetExceeded;
 
+/// Panic payload used when the code under test breaks the contract of a std::io trait it was
+/// handed (e.g. `BufRead::consume` beyond what `fill_buf` exposed): a library fault, not a harness one.
+pub struct ContractViolation(pub String);
+
 #[derive(Clone, Copy, Debug)]
 pub struct IoEv {
     pub ev: u64,
@@ -65,6 +69,13 @@ pub struct World {
 }
 
 pub type W = Rc<World>;
+
+/// Tier of the whole process (set once in main, recorded in replay files): the thorough tier
+/// shifts probability mass towards the expensive regimes and widens the sweeps.
+pub static THOROUGH: std::sync::atomic::AtomicBool = std::sync::atomic::AtomicBool::new(false);
+pub fn thorough() -> bool {
+    THOROUGH.load(std::sync::atomic::Ordering::Relaxed)
+}
 
 const MAX_TRACE: usize = 4000;
 
@@ -420,11 +431,13 @@ impl BufRead for SimBufRead {
         Ok(&self.data[self.pos..self.win_end])
     }
     fn consume(&mut self, amt: usize) {
-        assert!(
-            self.pos + amt <= self.win_end,
-            "sim: consume({}) beyond the exposed window",
-            amt
-        );
+        if self.pos + amt > self.win_end {
+            std::panic::panic_any(ContractViolation(format!(
+                "BufRead::consume({}) although the last fill_buf() exposed only {} bytes",
+                amt,
+                self.win_end - self.pos
+            )));
+        }
         self.pos += amt;
     }
 }
